@@ -11,8 +11,10 @@ def counter (g : Gen) : Option Int :=
   | .ok (.int n) => some n
   | _ => none
 
-/-- the automatic tabindex values handed out along a history: a call hands out the counter value
-    exactly when it writes the counter back -/
+/-- the automatic tabindex values handed out along a history OF TAG CALLS: a tag call hands out the
+    counter value exactly when it writes the counter back.  (On other ops the function also emits
+    the counter whenever the context changes: it is only used under `isTag` everywhere; mixed
+    histories are handled by `scopeHanded`, `Proofs/Lemmas/C19Scope.lean`.) -/
 def handed (T : Tables) (R : RenderCfg) : Gen → List Op → List Int
   | _, [] => []
   | g, op :: rest =>
